@@ -27,4 +27,5 @@ def main (args : List String) : IO UInt32 := do
   | ["enc"] => stateLoop stdin stdout Oratio.Driver.EncD.step none; return 0
   | ["ov"] => stateLoop stdin stdout Oratio.Driver.OvD.step none; return 0
   | ["sat"] => stateLoop stdin stdout Oratio.Driver.SatD.step none; return 0
+  | ["lex"] => lineLoop stdin stdout Oratio.Driver.RiddleD.step; return 0
   | _ => IO.eprintln "usage: oratio_model <arith|...>"; return 2
